@@ -311,14 +311,15 @@ func c16Templates() []c16Template {
 				Labels: []*schema.LabelSchema{{Name: "type", IsDepKey: true}},
 				Body:   &schema.BodySchema{},
 				DependentBody: map[schema.SchemaKey]*schema.BodySchema{
-					depKey([]schema.LabelDependent{lbl(0, "t")}, nil):                                                              mkMarker("m_l1", false, func(b *schema.BodySchema) { b.Attributes["mode"] = strKey() }),
+					depKey([]schema.LabelDependent{lbl(0, "t")}, nil):                                                              mkMarker("m_l1", true, func(b *schema.BodySchema) { b.Attributes["mode"] = strKey() }),
 					depKey([]schema.LabelDependent{lbl(0, "t")}, []schema.AttributeDependent{attrDep("mode", cty.StringVal("m"))}): mkMarker("m_l2", true, func(b *schema.BodySchema) { b.Attributes["mode"] = strKey() }),
 				}}}})
 		},
 		sels: []c16Sel{
-			{labels: []string{"t"}, marker: "m_l1", keyLabels: []int{0}},
+			{labels: []string{"t"}, marker: "m_l1", docs: true, keyLabels: []int{0}},
 			{labels: []string{"t"}, attrs: []c16Attr{{"mode", `"m"`, sv("m")}}, marker: "m_l2", docs: true, keyLabels: []int{0}, keyAttrs: []string{"mode"}},
-			{labels: []string{"t"}, attrs: []c16Attr{{"mode", `"zz"`, sv("zz")}}, marker: "m_l1", keyLabels: []int{0}, unknown: true},
+			// the second level is not found: the first-level body stays in force, its link sits on the keys that selected IT
+			{labels: []string{"t"}, attrs: []c16Attr{{"mode", `"zz"`, sv("zz")}}, marker: "m_l1", docs: true, keyLabels: []int{0}, unknown: true},
 			{labels: []string{"u"}, unknown: true},
 		}})
 	// T6: label and attribute of the static body on one level
